@@ -1,0 +1,223 @@
+// +build verif
+
+package pdnode_coord
+
+import (
+	"sync/atomic"
+	"time"
+
+	"github.com/youzan/ZanRedisDB/cluster"
+)
+
+// Verification-only exports (build tag "verif"): thin wrappers that make the
+// unexported placement functions and the unexported decision methods of the
+// PDCoordinator callable from an external harness. No wrapper contains logic
+// of its own except VerifSetDataNodes, which repeats the bookkeeping of
+// handleDataNodes (without the channel trigger) for a node list that the
+// harness presents directly.
+
+// ---- placement (layout) functions ----
+
+func VerifGetRebalancedNamespacePartitions(ns string, partitionNum int, replica int,
+	oldPartitionNodes [][]string, currentNodes map[string]cluster.NodeInfo,
+	balanceVer string) ([][]string, *cluster.CoordErr) {
+	return getRebalancedNamespacePartitions(ns, partitionNum, replica, oldPartitionNodes, currentNodes, balanceVer)
+}
+
+func VerifGetRebalancedPartitionsFromNameList(ns string, partitionNum int, replica int,
+	oldPartitionNodes [][]string, nodeNameList [][]string,
+	balanceVer string) ([][]string, *cluster.CoordErr) {
+	l := make([]SortableStrings, 0, len(nodeNameList))
+	for _, n := range nodeNameList {
+		l = append(l, SortableStrings(n))
+	}
+	return getRebalancedPartitionsFromNameList(ns, partitionNum, replica, oldPartitionNodes, l, balanceVer)
+}
+
+func VerifGetNodeNameList(currentNodes map[string]cluster.NodeInfo) [][]string {
+	l := getNodeNameList(currentNodes)
+	ret := make([][]string, 0, len(l))
+	for _, n := range l {
+		ret = append(ret, []string(n))
+	}
+	return ret
+}
+
+// ---- package level wait intervals ----
+
+// VerifSetWaitIntervals sets the package-global waiting intervals used by
+// doCheckNamespaces (migrate wait) and removeNamespaceFromRemovings.
+// Must be called before any coordinator is used concurrently.
+func VerifSetWaitIntervals(waitMigrate time.Duration, waitRemoveRemoving time.Duration) {
+	waitMigrateInterval = waitMigrate
+	waitRemoveRemovingNodeInterval = waitRemoveRemoving
+}
+
+func VerifGetWaitIntervals() (time.Duration, time.Duration) {
+	return waitMigrateInterval, waitRemoveRemovingNodeInterval
+}
+
+// ---- coordinator state injection ----
+
+// VerifBecomeLeader makes the coordinator consider itself the pd leader.
+func (pdCoord *PDCoordinator) VerifBecomeLeader() {
+	pdCoord.leaderNode = pdCoord.myNode
+}
+
+// VerifSetDataNodes presents a new data node list to the coordinator, with the
+// same bookkeeping as handleDataNodes does for a list received from the
+// register watch (node map, nodes epoch, stable node number, unstable flag),
+// but without sending the asynchronous check trigger.
+func (pdCoord *PDCoordinator) VerifSetDataNodes(nodes []cluster.NodeInfo, isMaster bool) {
+	oldNodes := pdCoord.dataNodes
+	oldLearnerNodes := pdCoord.learnerNodes
+	newNodes := make(map[string]cluster.NodeInfo)
+	newLearnerNodes := make(map[string]cluster.NodeInfo)
+	for _, v := range nodes {
+		if v.LearnerRole == "" {
+			if _, ok := oldLearnerNodes[v.GetID()]; ok {
+				continue
+			}
+			newNodes[v.GetID()] = v
+		} else {
+			if _, ok := oldNodes[v.GetID()]; ok {
+				continue
+			}
+			newLearnerNodes[v.GetID()] = v
+		}
+	}
+	pdCoord.nodesMutex.Lock()
+	pdCoord.dataNodes = newNodes
+	pdCoord.learnerNodes = newLearnerNodes
+	check := false
+	for oldID := range oldNodes {
+		if _, ok := newNodes[oldID]; !ok {
+			check = true
+		}
+	}
+	if check {
+		atomic.AddInt64(&pdCoord.nodesEpoch, 1)
+	}
+	if int32(len(pdCoord.dataNodes)) > atomic.LoadInt32(&pdCoord.stableNodeNum) {
+		atomic.StoreInt32(&pdCoord.stableNodeNum, int32(len(pdCoord.dataNodes)))
+	}
+	pdCoord.nodesMutex.Unlock()
+	for newID := range newNodes {
+		if _, ok := oldNodes[newID]; !ok {
+			check = true
+		}
+	}
+	if check && isMaster {
+		atomic.AddInt64(&pdCoord.nodesEpoch, 1)
+		atomic.StoreInt32(&pdCoord.isClusterUnstable, 1)
+	}
+}
+
+func (pdCoord *PDCoordinator) VerifNodesEpoch() int64 {
+	return atomic.LoadInt64(&pdCoord.nodesEpoch)
+}
+
+func (pdCoord *PDCoordinator) VerifStableNodeNum() int32 {
+	return atomic.LoadInt32(&pdCoord.stableNodeNum)
+}
+
+func (pdCoord *PDCoordinator) VerifBalanceWaiting() int32 {
+	return atomic.LoadInt32(&pdCoord.balanceWaiting)
+}
+
+func (pdCoord *PDCoordinator) VerifSetUpgrading(v bool) {
+	if v {
+		atomic.StoreInt32(&pdCoord.isUpgrading, 1)
+	} else {
+		atomic.StoreInt32(&pdCoord.isUpgrading, 0)
+	}
+}
+
+// VerifRemovingNodes returns a copy of the removing-node state map.
+func (pdCoord *PDCoordinator) VerifRemovingNodes() map[string]string {
+	pdCoord.nodesMutex.RLock()
+	defer pdCoord.nodesMutex.RUnlock()
+	m := make(map[string]string, len(pdCoord.removingNodes))
+	for k, v := range pdCoord.removingNodes {
+		m[k] = v
+	}
+	return m
+}
+
+func (pdCoord *PDCoordinator) VerifGetCurrentNodes(tags map[string]interface{}) map[string]cluster.NodeInfo {
+	return pdCoord.getCurrentNodes(tags)
+}
+
+func (pdCoord *PDCoordinator) VerifGetCurrentNodesWithEpoch(tags map[string]interface{}) (map[string]cluster.NodeInfo, int64) {
+	return pdCoord.getCurrentNodesWithEpoch(tags)
+}
+
+func (pdCoord *PDCoordinator) VerifGetCurrentNodesWithRemoving() (map[string]cluster.NodeInfo, int64) {
+	return pdCoord.getCurrentNodesWithRemoving()
+}
+
+// ---- coordinator decision methods ----
+
+func (pdCoord *PDCoordinator) VerifDoCheckNamespaces(monitorChan chan struct{}, failedInfo *cluster.NamespaceNameInfo,
+	waitingMigrateNamespace map[string]map[int]time.Time, fullCheck bool) {
+	pdCoord.doCheckNamespaces(monitorChan, failedInfo, waitingMigrateNamespace, fullCheck)
+}
+
+func (pdCoord *PDCoordinator) VerifHandleNamespaceMigrate(nsInfo *cluster.PartitionMetaInfo,
+	currentNodes map[string]cluster.NodeInfo, currentNodesEpoch int64) *cluster.CoordErr {
+	return pdCoord.handleNamespaceMigrate(nsInfo, currentNodes, currentNodesEpoch)
+}
+
+func (pdCoord *PDCoordinator) VerifAddNamespaceToNode(nsInfo *cluster.PartitionMetaInfo, nid string) *cluster.CoordErr {
+	return pdCoord.addNamespaceToNode(nsInfo, nid)
+}
+
+func (pdCoord *PDCoordinator) VerifRemoveNamespaceFromNode(nsInfo *cluster.PartitionMetaInfo, nid string) *cluster.CoordErr {
+	return pdCoord.removeNamespaceFromNode(nsInfo, nid)
+}
+
+func (pdCoord *PDCoordinator) VerifRemoveNamespaceFromRemovings(nsInfo *cluster.PartitionMetaInfo) {
+	pdCoord.removeNamespaceFromRemovings(nsInfo)
+}
+
+func (pdCoord *PDCoordinator) VerifProcessRemovingNodes(monitorChan chan struct{}, removingNodes map[string]string) {
+	pdCoord.processRemovingNodes(monitorChan, removingNodes)
+}
+
+// ---- data placement (balance) methods ----
+
+func (pdCoord *PDCoordinator) VerifRebalanceNamespace(monitorChan chan struct{}) (bool, bool) {
+	return pdCoord.dpm.rebalanceNamespace(monitorChan)
+}
+
+func (pdCoord *PDCoordinator) VerifAddNodeToNamespaceAndWaitReady(monitorChan chan struct{},
+	nsInfo *cluster.PartitionMetaInfo, nodeNameList [][]string) (*cluster.PartitionMetaInfo, error) {
+	l := make([]SortableStrings, 0, len(nodeNameList))
+	for _, n := range nodeNameList {
+		l = append(l, SortableStrings(n))
+	}
+	return pdCoord.dpm.addNodeToNamespaceAndWaitReady(monitorChan, nsInfo, l)
+}
+
+func (pdCoord *PDCoordinator) VerifAllocNamespaceRaftNodes(ns string, currentNodes map[string]cluster.NodeInfo,
+	replica int, partitionNum int, existPart map[int]*cluster.PartitionMetaInfo) ([]cluster.PartitionReplicaInfo, *cluster.CoordErr) {
+	return pdCoord.dpm.allocNamespaceRaftNodes(ns, currentNodes, replica, partitionNum, existPart)
+}
+
+func (pdCoord *PDCoordinator) VerifAllocNodeForNamespace(nsInfo *cluster.PartitionMetaInfo,
+	currentNodes map[string]cluster.NodeInfo) (*cluster.NodeInfo, *cluster.CoordErr) {
+	return pdCoord.dpm.allocNodeForNamespace(nsInfo, currentNodes)
+}
+
+func (pdCoord *PDCoordinator) VerifDecideUnwantedRaftNode(nsInfo *cluster.PartitionMetaInfo,
+	currentNodes map[string]cluster.NodeInfo) string {
+	return pdCoord.dpm.decideUnwantedRaftNode(nsInfo, currentNodes)
+}
+
+func (pdCoord *PDCoordinator) VerifGetCurrentPartitionNodes(ns string) ([][]string, *cluster.CoordErr) {
+	return pdCoord.dpm.getCurrentPartitionNodes(ns)
+}
+
+func (pdCoord *PDCoordinator) VerifBalanceVer() string {
+	return pdCoord.dpm.balanceVer
+}
